@@ -82,6 +82,10 @@ R('enh_decode_len6', 'h_enh_decode', None, unwind=34, defines=['DEC_MAXLEN=6'], 
   bounded='buffer length <= 6 bytes per call (the transport buffer holds up to 32)')
 R('enh_decode_len8', 'h_enh_decode', None, unwind=34, defines=['DEC_MAXLEN=8'], props=('C14', 'C20'), cost=600, timeout=3000, tier='thorough',
   bounded='buffer length <= 8 bytes per call (the transport buffer holds up to 32)')
+R('enh_decode_len12', 'h_enh_decode', None, unwind=34, defines=['DEC_MAXLEN=12'], props=('C14', 'C20'), cost=900, timeout=3000, tier='thorough', solver='kissat',
+  bounded='buffer length <= 12 bytes per call (the transport buffer holds up to 32)')
+R('enh_decode_len16', 'h_enh_decode', None, unwind=34, defines=['DEC_MAXLEN=16'], props=('C14', 'C20'), cost=1500, timeout=4000, tier='thorough', solver='kissat',
+  bounded='buffer length <= 16 bytes per call (the transport buffer holds up to 32)')
 R('enh_decode_len32', 'h_enh_decode', None, unwind=34, props=('C14', 'C20'), cost=3000, timeout=7000, tier='thorough')
 R('enh_encode', 'h_enh_encode', None, unwind=3, props=('C14', 'C20'), cost=5)
 R('transport', 'h_transport', None, unwind=34, props=('C14', 'C20'), cost=60)
